@@ -963,11 +963,14 @@ class EventBus:
         # Always acquire the global lock (it's re-entrant across tasks)
         async with _get_global_lock():
             # Process the event
-            await self.process_event(event, timeout=timeout)
-
-            # Mark task as done only if we got it from the queue
-            if from_queue:
-                self.event_queue.task_done()
+            try:
+                await self.process_event(event, timeout=timeout)
+            finally:
+                # Mark task as done only if we got it from the queue.
+                # Must also happen when processing raises or is cancelled, otherwise
+                # event_queue.join() and therefore wait_until_idle() block forever.
+                if from_queue:
+                    self.event_queue.task_done()
 
         logger.debug(f'✅ {self}.step({event}) COMPLETE')
         return event
